@@ -21,3 +21,4 @@ done
 # lines with an execution count of 0
 awk '/^\/.*:$/ {file=$0} /^ +[0-9]+\| +0\|/ {print file " " $0}' "$COV/show.txt" > "$COV/uncovered.txt"
 cat "$COV/report.txt"
+rm -f /repo/*.profraw /repo/*/*.profraw
